@@ -78,6 +78,8 @@ def requirements_txt(draw, present):
         tail = draw(st.sampled_from(["nl", "nl", "none", "blank2", "ws"]))
         text += {"nl": eol, "none": "", "blank2": eol * 3, "ws": eol + "  " + eol}[tail]
     feats = ["txt:eol=" + ("crlf" if eol == "\r\n" else "lf")] + (["txt:empty"] if not lines else []) + (["txt:tail=" + tail] if lines else [])
+    if any(l and not l.startswith(("#", "-", "git+")) for l in lines):
+        feats.append("updatable")  # holds at least one plain requirement line: the writer appends to it
     if draw(st.integers(0, 9)) == 0:
         text = "﻿" + text
         feats.append("txt:bom")
@@ -115,7 +117,8 @@ def pyproject_toml(draw, present):
                     continue
                 if r.marker or r.extras:
                     continue
-                out.append(f'{r.name} = "{str(r.specifier) or "*"}"')
+                key = json.dumps(r.name) if "." in r.name else r.name  # a bare dotted key would be a nested table
+                out.append(f'{key} = "{str(r.specifier) or "*"}"')
             out.append("")
             if draw(st.booleans()):
                 out += ["[tool.poetry.group.dev.dependencies]", 'mypy = "^1.0"', ""]
@@ -125,7 +128,7 @@ def pyproject_toml(draw, present):
     eol = draw(st.sampled_from(["lf", "lf", "crlf"]))
     if eol == "crlf":
         text = text.replace("\n", "\r\n")
-    return text, ["toml:" + shape, "toml:eol=" + eol]
+    return text, ["toml:" + shape, "toml:eol=" + eol] + (["updatable"] if shape in ("project-multiline", "project-inline", "project-empty", "poetry", "both") else [])
 
 
 @st.composite
@@ -147,10 +150,15 @@ def setup_py(draw, present):
     else:
         ir = ""
     text = head + "\n" + pre + f"{call}(\n    name=\"demo\",\n    version=\"0.1\",\n" + ir + "    python_requires=\">=3.9\",\n)\n"
+    quotes = draw(st.sampled_from(["double", "double", "single"]))
+    if quotes == "single" and "'" not in text and "\\" not in text:
+        text = text.replace('"', "'")
+    else:
+        quotes = "double"
     eol = draw(st.sampled_from(["lf", "lf", "crlf"]))
     if eol == "crlf":
         text = text.replace("\n", "\r\n")
-    return text, ["py:" + shape, "py:eol=" + eol]
+    return text, ["py:" + shape, "py:eol=" + eol, "py:quotes=" + quotes] + (["updatable"] if shape in ("multiline", "single-line", "setuptools-dot") and deps else [])
 
 
 @st.composite
@@ -172,14 +180,21 @@ def setup_cfg(draw, present):
             out.append("install_requires =")
         out.append("python_requires = >=3.9")
         out.append("")
-    out += ["[flake8]", "max-line-length = 100"]
-    if deps and draw(st.booleans()):
-        out += ["", "[options.extras_require]", "dev =", "    " + deps[-1]]  # the last dependency's text occurs twice in the file
-    text = "\n".join(out) + "\n"
+    tail = draw(st.sampled_from(["sections-after", "sections-after", "deps-last", "deps-last-nofinalnl"]))
+    if tail == "sections-after" or shape not in ("newline", "comma"):
+        tail = "sections-after"
+        out += ["[flake8]", "max-line-length = 100"]
+        if deps and draw(st.booleans()):
+            out += ["", "[options.extras_require]", "dev =", "    " + deps[-1]]  # the last dependency's text occurs twice in the file
+    else:
+        # the dependency list is the last thing in the file
+        while out and out[-1] in ("", "python_requires = >=3.9"):
+            out.pop()
+    text = "\n".join(out) + ("" if tail == "deps-last-nofinalnl" else "\n")
     eol = draw(st.sampled_from(["lf", "lf", "crlf"]))
     if eol == "crlf":
         text = text.replace("\n", "\r\n")
-    return text, ["cfg:" + shape, "cfg:eol=" + eol]
+    return text, ["cfg:" + shape, "cfg:eol=" + eol, "cfg:tail=" + tail] + (["updatable"] if shape == "newline" and deps else [])
 
 
 GRAMMAR = {"requirements.txt": requirements_txt, "pyproject.toml": pyproject_toml, "setup.py": setup_py, "setup.cfg": setup_cfg}
@@ -272,13 +287,17 @@ def subsequence(small, big):
 # ---------------------------------------------------------------------------- evaluation
 
 
-def run_adder(root: Path, cid, second=False):
+PAIR = ["pixee:python/url-sandbox", "pixee:python/sandbox-process-creation"]  # both need the package `security`
+PAIR_SRC = "import requests\nimport subprocess\n\nurl = input()\nrequests.get(url)\nsubprocess.run(url)\n"
+
+
+def run_adder(root: Path, cid, second=False, pair=False):
     proj = root / "proj"
     (proj / "src").mkdir(parents=True, exist_ok=True)
-    (proj / "src" / "app.py").write_text(ADDERS[cid][1])
+    (proj / "src" / "app.py").write_text(PAIR_SRC if pair else ADDERS[cid][1])
     out = root / ("out2.codetf" if second else "out.codetf")
     before = runner.snapshot(proj)
-    res = runner.run_cli([str(proj), "--output", str(out), "--codemod-include", cid], cwd=str(root), output=out, timeout=900)
+    res = runner.run_cli([str(proj), "--output", str(out), "--codemod-include", ",".join(PAIR) if pair else cid], cwd=str(root), output=out, timeout=900)
     after = runner.snapshot(proj)
     return res, before, after
 
@@ -337,6 +356,11 @@ def judge_step(cid, before, after, res, feats, case, st_, kinds_by_rel, expect_n
         # the byte-level EOL convention of the file is unrelated content too
         if (b.count(b"\r\n") > 0) != (a.count(b"\r\n") > 0) and b.strip():
             viol("line-ending-convention-changed", det)
+    # (9) completeness: a manifest that can take the requirement exists, nothing declares the package, yet nothing was updated
+    if src_changed and not changed and not expect_no_add and case.get("project"):
+        upd = [m["rel"] for m in case["project"]["manifests"] if "updatable" in m["features"]]
+        if upd and not declared_in(before, kinds_by_rel, cid):
+            viol("updatable-manifest-present-but-none-updated", {"updatable": upd, "manifests": {r: before[r][1].decode("utf-8", "replace")[:600] for r in kinds_by_rel if r in before}})
     # (8) nothing could be updated although a dependency was needed
     if src_changed and not changed and result is not None:
         declared_somewhere = False
@@ -362,20 +386,20 @@ def eval_project(case, stats=None):
     with runner.scratch("c14") as root:
         root = Path(root)
         runner.write_tree(root / "proj", {m["rel"]: m["text"] for m in case["manifests"]})
-        res, before, after = run_adder(root, cid)
+        res, before, after = run_adder(root, cid, pair=bool(case.get("pair")))
         changed = judge_step(cid, before, after, res, feats, {"project": case}, st_, kinds_by_rel)
         # (7) second run
         res2 = None
         if res.exit == 0:
-            (root / "proj" / "src" / "app.py").write_text(ADDERS[cid][1])  # restore the trigger: the codemod needs the dependency again
-            res2, b2, a2 = run_adder(root, cid, second=True)
+            (root / "proj" / "src" / "app.py").write_text(PAIR_SRC if case.get("pair") else ADDERS[cid][1])  # restore the trigger: the codemod needs the dependency again
+            res2, b2, a2 = run_adder(root, cid, second=True, pair=bool(case.get("pair")))
             if res2.exit == 0:
                 ch2 = [r for r in kinds_by_rel if b2.get(r) != a2.get(r)]
                 if ch2:
                     st_.violation(cid.split("/")[-1], "second-run-changed-manifest", {"project": case}, json.dumps({"manifest": ch2[0], "after_run1": b2[ch2[0]][1].decode("utf-8", "replace"), "after_run2": a2[ch2[0]][1].decode("utf-8", "replace")})[:6000], features=feats)
             else:
                 st_.violation(cid.split("/")[-1], "second-run-fails", {"project": case}, json.dumps({"exit": res2.exit, "stderr": res2.stderr[-1200:]}), features=feats)
-    labels = ["codemod:" + cid.split("/")[-1], f"manifests={len(case['manifests'])}"] + feats + (["manifest-changed"] if changed else ["no-manifest-changed"])
+    labels = ["codemod:" + cid.split("/")[-1], f"manifests={len(case['manifests'])}"] + (["two-codemods-same-package"] if case.get("pair") else []) + feats + (["manifest-changed"] if changed else ["no-manifest-changed"])
     has_prior = any(m["text"].strip() for m in case["manifests"])
     st_.case(case, bool(case["manifests"]) and has_prior, labels, sample={"codemod": cid, "manifests": [{"rel": m["rel"], "text": m["text"][:300]} for m in case["manifests"]], "changed": changed})
     return st_.violations[v0:]
@@ -495,11 +519,13 @@ QUICK_ADDERS = ["pixee:python/use-defusedxml", "pixee:python/harden-pickle-load"
 def shards(tier, seed):
     b = BUDGET[tier]
     adders = QUICK_ADDERS + (["pixee:python/url-sandbox"] if tier == "thorough" else [])
-    return [{"projects": b["projects"], "histories": b["histories"], "adders": adders, "seed": seed * 1000 + i} for i in range(16)]
+    return [{"projects": b["projects"], "histories": b["histories"], "pairs": 2 if tier == "quick" else 12, "adders": adders, "seed": seed * 1000 + i} for i in range(16)]
 
 
 def run_shard(spec):
     stats = core.Stats()
+    # two codemods of one run that need the same package (`security`): it must still be added exactly once
+    core.drive(project(["pixee:python/url-sandbox"]), lambda c: eval_project(dict(c, pair=True), stats), spec["pairs"], spec["seed"] + 3)
     core.drive(project(spec["adders"]), lambda c: eval_project(c, stats), spec["projects"], spec["seed"])
     run_histories(stats, spec["histories"], spec["seed"] + 7, QUICK_ADDERS)
     return stats
